@@ -574,6 +574,20 @@ M('C12', 'dk-keylen-param-caller-128', FL, _DK_SIG, _DK_SIG_KW, 'C12.1', more=[(
 M('C12', 'dk-keylen-param-caller-block-size', FL, _DK_SIG, _DK_SIG_KW, 'C12.1', more=[(FL, _DK_CALL, _DK_CALL.replace("derive_key(passphrase)", "derive_key(passphrase, keylen=self.s2k.encalg.block_size)"))])
 M('C12', 'dk-keylen-param-default-256', FL, _DK_SIG, "    def derive_key(self, passphrase, *, keylen=256):\n        ##TODO: raise an exception if self.usage is not 254 or 255\n", 'C12.1')
 M('C12', 'dk-keylen-param-bytes', FL, _DK_SIG, _DK_SIG_KW, 'C12.1', more=[(FL, _DK_CALL, _DK_CALL.replace("derive_key(passphrase)", "derive_key(passphrase, keylen=self.s2k.encalg.key_size // 8)"))])
+# --- wave 6: single-context fast path (guarded early return), digest_size tables
+_DK_H = "        h = []\n        for i in range(0, ctx):\n"
+_FAST = "        if %s:\n            only = self.halg.hasher\n            only.update(hashdata)\n            return only.digest()[:keylen // 8]\n\n"
+T('C12', 'twin-dk-fast-path-ctx1', FL, _DK_H, _FAST % "ctx == 1" + _DK_H)
+T('C12', 'twin-dk-fast-path-sizes', FL, _DK_H, _FAST % "keylen <= hashlen" + _DK_H)
+M('C12', 'dk-fast-path-ctx-le-2', FL, _DK_H, _FAST % "ctx <= 2" + _DK_H, 'C12.1')
+M('C12', 'dk-fast-path-unguarded-keylen', FL, _DK_H, _FAST % "keylen <= 256" + _DK_H, 'C12.1')
+M('C12', 'dk-fast-path-preloaded', FL, _DK_H, "        if ctx == 1:\n            only = self.halg.hasher\n            only.update(b'\\x00')\n            only.update(hashdata)\n            return only.digest()[:keylen // 8]\n\n" + _DK_H, 'C12.1')
+_DS = "    def digest_size(self):\n        return self.hasher.digest_size\n"
+_DS_TBL = "    def digest_size(self):\n        ds = {HashAlgorithm.MD5: 16, HashAlgorithm.SHA1: 20, HashAlgorithm.RIPEMD160: 20, HashAlgorithm.SHA224: %s,\n              HashAlgorithm.SHA256: 32, HashAlgorithm.SHA384: %s, HashAlgorithm.SHA512: 64}\n        if self in ds:\n            return ds[self]\n        return self.hasher.digest_size\n"
+T('C12', 'twin-digest-size-table', CO, _DS, _DS_TBL % (28, 48))
+M('C12', 'digest-size-sha224-32', CO, _DS, _DS_TBL % (32, 48), 'C12.2')
+M('C12', 'digest-size-sha384-bits', CO, _DS, _DS_TBL % (28, 384), 'C12.2')
+M('C12', 'digest-size-get-default', CO, _DS, "    def digest_size(self):\n        return {HashAlgorithm.MD5: 16, HashAlgorithm.SHA1: 20, HashAlgorithm.SHA256: 32, HashAlgorithm.SHA512: 64}.get(self, 32)\n", 'C12.2')
 M('C12', 'count-getter-or-default', FL, "        return (16 + (self._count & 15)) << ((self._count >> 4) + 6)", "        c = self._count or self.halg.tuned_count\n        return (16 + (c & 15)) << ((c >> 4) + 6)", 'C12.3')
 M('C12', 'count-getter-255-special', FL, "        return (16 + (self._count & 15)) << ((self._count >> 4) + 6)", "        if self._count == 255:\n            return self.encalg.block_size * 1024\n        return (16 + (self._count & 15)) << ((self._count >> 4) + 6)", 'C12.3')
 M('C12', 'count-getter-255-capped', FL, "        return (16 + (self._count & 15)) << ((self._count >> 4) + 6)", "        if self._count == 255:\n            return 0x2000000\n        return (16 + (self._count & 15)) << ((self._count >> 4) + 6)", 'C12.3')
@@ -3022,6 +3036,18 @@ T('C06', 'twin-keyblob-derive-keylen-kw', FL, "    def derive_key(self, passphra
 M('C06', 'keyblob-derive-keylen-of-caller-arg', FL, "    def derive_key(self, passphrase):\n        ##TODO: raise an exception if self.usage is not 254 or 255\n        keylen = self.encalg.key_size\n",
   "    def derive_key(self, passphrase, *, keylen=None):\n        ##TODO: raise an exception if self.usage is not 254 or 255\n        if keylen is None:\n            keylen = self.encalg.key_size\n", 'C06.8',
   more=[(FL, "        sessionkey = self.s2k.derive_key(passphrase)\n        del passphrase\n\n        pt = bytearray()", "        sessionkey = self.s2k.derive_key(passphrase, keylen=192)\n        del passphrase\n\n        pt = bytearray()")])
+# --- wave 6: exception paths of protect may not lower the protection state; unlocked is read from the key material
+_ENC_LINE = "        self.encbytes = bytearray(_encrypt(bytes(pt), bytes(sessionkey), enc_alg, bytes(self.s2k.iv)))\n"
+M('C06', 'keyblob-failure-resets-s2k', FL, _ENC_LINE, "        try:\n    " + _ENC_LINE + "        except Exception:\n            self.s2k = String2Key()\n            raise\n", 'C06.3')
+M('C06', 'keyblob-failure-usage-0', FL, _ENC_LINE, "        try:\n    " + _ENC_LINE + "        except PGPError:\n            self.s2k.usage = 0\n            raise\n", 'C06.3')
+M('C06', 'pkt-protect-failure-drops-ciphertext', PK, "        self.keymaterial.encrypt_keyblob(passphrase, enc_alg, hash_alg)\n        del passphrase\n        self.update_hlen()\n",
+  "        try:\n            self.keymaterial.encrypt_keyblob(passphrase, enc_alg, hash_alg)\n        except Exception:\n            self.keymaterial.s2k = String2Key()\n            self.keymaterial.encbytes = bytearray()\n            raise\n        del passphrase\n        self.update_hlen()\n", 'C06.3')
+T('C06', 'twin-keyblob-failure-logged', FL, _ENC_LINE, "        try:\n    " + _ENC_LINE + "        except Exception:\n            del pt\n            raise\n")
+_UNLOCKED = "        if self.protected:\n            return 0 not in list(self.keymaterial)\n        return True  # pragma: no cover\n"
+M('C06', 'unlocked-cached-flag', PK, _UNLOCKED, "        if self.protected:\n            return getattr(self, '_unlocked', False)\n        return True  # pragma: no cover\n", 'C06.6',
+  more=[(PK, "    def unprotect(self, passphrase):\n        self.keymaterial.decrypt_keyblob(passphrase)\n", "    def unprotect(self, passphrase):\n        self.keymaterial.decrypt_keyblob(passphrase)\n        self._unlocked = True\n")])
+M('C06', 'unlocked-from-encbytes', PK, _UNLOCKED, "        if self.protected:\n            return bool(self.keymaterial.encbytes) and self._decrypted\n        return True  # pragma: no cover\n", 'C06.6')
+T('C06', 'twin-unlocked-all-nonzero', PK, _UNLOCKED, "        if not self.protected:\n            return True  # pragma: no cover\n        fields = list(self.keymaterial)\n        return all(f != 0 for f in fields)\n")
 M('C06', 'keyblob-clear-first', FL, "        sessionkey = self.s2k.derive_key(passphrase)\n        del passphrase\n\n        pt = bytearray()\n", "        sessionkey = self.s2k.derive_key(passphrase)\n        del passphrase\n        self.clear()\n\n        pt = bytearray()\n", 'C06.3',
   more=[(FL, "        # delete pt and clear self\n        del pt\n        self.clear()", "        # delete pt\n        del pt")])
 M('C06', 'privkey-cached-module-dict', FL, "        params = dsa.DSAParameterNumbers(self.p, self.q, self.g)\n        pn = dsa.DSAPublicNumbers(self.y, params)\n        return dsa.DSAPrivateNumbers(self.x, pn).private_key(default_backend())",
@@ -4047,6 +4073,16 @@ M('C09', 'five-octet-kept-when-parsed', TY, "                    return (self.by
         (PT, "        _bytes += self.encode_length(self.length, self._lenfmt, self.llen)", "        _bytes += self.encode_length(self.length, self._lenfmt, self.llen, getattr(self, '_five', False))")])
 T('C09', 'twin-parsed-width-recorded-unused', TY, _NEWLEN_TAIL, _NEWLEN_TAIL + "            self._wire_llen = size\n")
 
+# --- C09 fifth round: the datetime overload keeps the instant; the parse path of a time codec does not read the clock
+_PK_DT = "            warnings.warn(\"Passing TZ-naive datetime object to PubKeyV4 packet\")\n        self._created = val\n"
+M('C09', 'created-datetime-relabelled', PK, _PK_DT, "            warnings.warn(\"Passing TZ-naive datetime object to PubKeyV4 packet\")\n\n        elif val.tzinfo is not timezone.utc:\n            val = val.replace(tzinfo=timezone.utc)\n        self._created = val\n", 'C09.5')
+M('C09', 'mtime-datetime-relabelled-always', PK, "            warnings.warn(\"Passing TZ-naive datetime object to LiteralData packet\")\n        self._mtime = val\n", "            warnings.warn(\"Passing TZ-naive datetime object to LiteralData packet\")\n        self._mtime = val.replace(tzinfo=timezone.utc)\n", 'C09.5')
+M('C09', 'reader-clamped-to-now', SS, "    def created_int(self, val):\n        self.created = datetime.fromtimestamp(val, timezone.utc)", "    def created_int(self, val):\n        when = datetime.fromtimestamp(val, timezone.utc)\n        now = datetime.now(timezone.utc)\n        self.created = now if when > now else when", 'C09.5')
+M('C09', 'reader-bytes-zero-means-now', PK, "    def mtime_bin(self, val):\n        self.mtime = self.bytes_to_int(val)", "    def mtime_bin(self, val):\n        self.mtime = self.bytes_to_int(val) or int(time.time())", 'C09.5')
+T('C09', 'twin-created-datetime-astimezone', PK, _PK_DT, "            warnings.warn(\"Passing TZ-naive datetime object to PubKeyV4 packet\")\n\n        else:\n            val = val.astimezone(timezone.utc)\n        self._created = val\n")
+M('C09', 'count-cached-on-first-read', FL, "        return (16 + (self._count & 15)) << ((self._count >> 4) + 6)", "        if getattr(self, '_decoded', None) is None:\n            self._decoded = (16 + (self._count & 15)) << ((self._count >> 4) + 6)\n        return self._decoded", 'C09.4')
+M('C09', 'old-type-bits-from-parsed-width', PT, "{1: 0, 2: 1, 4: 2, 0: 3}[self.llen]", "{1: 0, 2: 1, 4: 2, 0: 3}[self._llen]", 'C09.2')
+
 # =============================================================================================== C20
 M('C20', 'ops-loop-forward', PGP, "            for sig in reversed(self._signatures):\n                ops = sig.make_onepass()", "            for sig in self._signatures:\n                ops = sig.make_onepass()", 'C20.2')
 M('C20', 'trailing-sigs-reversed', PGP, "                yield self._mdc\n\n            for sig in self._signatures:\n                yield sig", "                yield self._mdc\n\n            for sig in reversed(self._signatures):\n                yield sig", 'C20.2')
@@ -4489,6 +4525,35 @@ M('C08', 'sigv4-signature-unbounded-again', PK, '        send = self.header.leng
   '        self.signature.parse(packet)\n', 'C08.d', more=[(SS, '        self._sig.header.length = self.header.length - 1\n        self._sig.parse(packet)\n', '        self._sig.parse(packet)\n')])
 M('C08', 'sigv4-signature-in-place-only', PK, '        send = self.header.length - 1 - (plen - len(packet))\n        self.signature.parse(packet[:send])\n        del packet[:send]\n',
   '        self.signature.parse(packet)\n', 'C08.d')
+# wave 6: subpacket header identity (C08.i), integer fields keep their wire range (C08.c), slice-assignment prepend (C08.d)
+M('C08', 'subheader-critical-from-masked-typeid', ST, '        v = self.bytes_to_int(val)\n        self.typeid = v\n        self.critical = bool(v & 0x80)\n',
+  '        self.typeid = self.bytes_to_int(val)\n        self.critical = bool(self.typeid & 0x80)\n', 'C08.i')
+M('C08', 'subheader-critical-bit-6', ST, '        v = self.bytes_to_int(val)\n        self.typeid = v\n        self.critical = bool(v & 0x80)\n',
+  '        v = self.bytes_to_int(val)\n        self.typeid = v\n        self.critical = bool(v & 0x40)\n', 'C08.i')
+M('C08', 'subheader-critical-dropped', ST, '        v = self.bytes_to_int(val)\n        self.typeid = v\n        self.critical = bool(v & 0x80)\n',
+  '        v = self.bytes_to_int(val)\n        self.typeid = v\n', 'C08.i')
+M('C08', 'subheader-writer-critical-shift-6', ST, '(int(self.critical) << 7) + self.typeid',
+  '(int(self.critical) << 6) + self.typeid', 'C08.i')
+T('C08', 'twin-subheader-critical-shift', ST, '        v = self.bytes_to_int(val)\n        self.typeid = v\n        self.critical = bool(v & 0x80)\n',
+  '        octet = self.bytes_to_int(val)\n        self.critical = (octet >> 7) == 1\n        self.typeid = octet\n')
+M('C08', 'sigv4-halg-unknown-to-invalid', PK, '        except ValueError:  # pragma: no cover\n            self._halg = val\n\n    @property\n    def signature(self):',
+  '        except ValueError:  # pragma: no cover\n            self._halg = HashAlgorithm.Invalid\n\n    @property\n    def signature(self):', 'C08.c')
+M('C08', 'sigv4-halg-unknown-masked', PK, '        except ValueError:  # pragma: no cover\n            self._halg = val\n\n    @property\n    def signature(self):',
+  '        except ValueError:  # pragma: no cover\n            self._halg = val & 0x0f\n\n    @property\n    def signature(self):', 'C08.c')
+M('C08', 'trustsig-amount-clamp-120', SS, '        self._amount = max(0, min(val, 255))',
+  '        self._amount = max(0, min(val, 120))', 'C08.c')
+M('C08', 'trustsig-level-clamp-2', SS, '    def level_int(self, val):\n        self._level = val\n',
+  '    def level_int(self, val):\n        self._level = min(val, 2)\n', 'C08.c')
+M('C08', 'trustsig-amount-floor-1', SS, '        self._amount = max(0, min(val, 255))',
+  '        self._amount = max(1, min(val, 255))', 'C08.c')
+T('C08', 'twin-trustsig-amount-clamp-respelled', SS, '        self._amount = max(0, min(val, 255))',
+  '        amount = val\n        if amount > 255:\n            amount = 255\n        if amount < 0:\n            amount = 0\n        self._amount = amount')
+T('C08', 'twin-skesk-prepend-slice-assign', PK, '        packet.insert(0, 255)\n',
+  "        packet[:0] = b'\\xff'\n")
+M('C08', 'skesk-prepend-two-octets', PK, '        packet.insert(0, 255)\n',
+  "        packet[:0] = b'\\xff\\xff'\n", 'C08.d')
+M('C08', 'skesk-prepend-remainder-minus-1', PK, '        packet.insert(0, 255)\n',
+  "        packet[:0] = b'\\xff'\n", 'C08.d', more=[(PK, '        ctend = self.header.length - len(self.s2k)\n', '        ctend = self.header.length - len(self.s2k) - 1\n')])
 # --- end C08 hardening
 M('C09', 'old-tag-shift', PT, "        tag |= (self.tag) if self._lenfmt else ((self.tag << 2) | {1: 0, 2: 1, 4: 2, 0: 3}[self.llen])", "        tag |= (self.tag) if self._lenfmt else ((self.tag << 1) | {1: 0, 2: 1, 4: 2, 0: 3}[self.llen])", 'C09.8')
 M('C09', 'tag-mask-1f', PT, "        _tag = (val & 0x3F) if self._lenfmt else ((val & 0x3C) >> 2)", "        _tag = (val & 0x1F) if self._lenfmt else ((val & 0x3C) >> 2)", 'C09.8')
@@ -5242,6 +5307,34 @@ T('C18', 'twin-intended-recipient-one-shared-call', PGP, _IR,
   "                recipient_fpr = intended_recipient.fingerprint\n            elif isinstance(intended_recipient, Fingerprint):\n                recipient_fpr = intended_recipient\n            else:\n                warnings.warn(\"Intended Recipient is not a PGPKey, ignoring\")\n                continue\n\n            sig._signature.subpackets.addnew('IntendedRecipient', hashed=True, version=4,\n                                             intended_recipient=recipient_fpr)\n")
 M('C18', 'intended-recipient-shared-call-one-arm-derived', PGP, _IR,
   "                recipient_fpr = (intended_recipient.parent or intended_recipient).fingerprint\n            elif isinstance(intended_recipient, Fingerprint):\n                recipient_fpr = intended_recipient\n            else:\n                warnings.warn(\"Intended Recipient is not a PGPKey, ignoring\")\n                continue\n\n            sig._signature.subpackets.addnew('IntendedRecipient', hashed=True, version=4,\n                                             intended_recipient=recipient_fpr)\n", 'C18.7')
+
+# =============================================================================================== C18 wave 6 (w5 seeded shapes, twin C18-ref19)
+_PUBKEY_BODY = ("        pk = PubKeyV4() if not isinstance(self, PrivSubKeyV4) else PubSubKeyV4()\n        pk.created = self.created\n        pk.pkalg = self.pkalg\n\n        # copy over MPIs\n        for pm in self.keymaterial.__pubfields__:\n            setattr(pk.keymaterial, pm, copy.copy(getattr(self.keymaterial, pm)))\n\n        if self.pkalg in {PubKeyAlgorithm.ECDSA, PubKeyAlgorithm.EdDSA}:\n            pk.keymaterial.oid = self.keymaterial.oid\n\n        if self.pkalg == PubKeyAlgorithm.ECDH:\n            pk.keymaterial.oid = self.keymaterial.oid\n            pk.keymaterial.kdf = copy.copy(self.keymaterial.kdf)\n\n        pk.update_hlen()\n        return pk\n")
+_HELPER = ("\n    def _copy_public_half_to(self, pk):\n        pk.created = %s\n        pk.pkalg = self.pkalg\n        src, dst = self.keymaterial, pk.keymaterial\n        for pm in src.__pubfields__:\n            setattr(dst, pm, copy.copy(getattr(src, pm)))\n        if self.pkalg in {PubKeyAlgorithm.ECDSA, PubKeyAlgorithm.EdDSA, PubKeyAlgorithm.ECDH}:\n            dst.oid = src.oid\n        if self.pkalg == PubKeyAlgorithm.ECDH:\n            dst.kdf = copy.copy(src.kdf)\n        return pk\n")
+_NEWBODY = "        twin = PubSubKeyV4 if isinstance(self, PrivSubKeyV4) else PubKeyV4\n        pk = self._copy_public_half_to(twin())\n        pk.update_hlen()\n        return pk\n"
+T('C18', 'twin-pubkey-body-in-new-base-method', PK, _PUBKEY_BODY, _NEWBODY + _HELPER % 'self.created')
+M('C18', 'pubkey-new-base-method-created-of-target', PK, _PUBKEY_BODY, _NEWBODY + _HELPER % 'pk.created', 'C18')
+M('C18', 'table-drops-algorithm-20', PK, "            (True, PubKeyAlgorithm.FormerlyElGamalEncryptOrSign): ElGPub,\n", "", 'C18.3',
+  more=[(PK, "            (False, PubKeyAlgorithm.FormerlyElGamalEncryptOrSign): ElGPriv,\n", "")])
+M('C18', 'table-drops-private-eddsa-only', PK, "            (False, PubKeyAlgorithm.EdDSA): EdDSAPriv,\n", "", 'C18.3')
+T('C18', 'twin-created-readers-temporaries', PK, "        self.created = datetime.fromtimestamp(val, timezone.utc)", "        seconds = val\n        when = datetime.fromtimestamp(seconds, tz=timezone.utc)\n        self.created = when",
+  more=[(PK, "    def created_bin(self, val):\n        self.created = self.bytes_to_int(val)", "    def created_bin(self, val):\n        seconds = self.bytes_to_int(val)\n        self.created = seconds")])
+M('C18', 'created-future-time-clamped-to-now', PK, "        self.created = datetime.fromtimestamp(val, timezone.utc)",
+  "        created = datetime.fromtimestamp(val, timezone.utc)\n        now = datetime.now(timezone.utc)\n        if created > now:\n            created = now\n        self.created = created", 'C18.5')
+M('C18', 'created-zero-defaults-to-now', PK, "        self.created = datetime.fromtimestamp(val, timezone.utc)", "        self.created = datetime.fromtimestamp(val, timezone.utc) if val else datetime.now(timezone.utc)", 'C18.5')
+M('C18', 'created-read-as-local-time', PK, "        self.created = datetime.fromtimestamp(val, timezone.utc)", "        self.created = datetime.fromtimestamp(val)", 'C18.5')
+M('C18', 'created-octets-little-endian', PK, "    def created_bin(self, val):\n        self.created = self.bytes_to_int(val)", "    def created_bin(self, val):\n        self.created = self.bytes_to_int(val, 'little')", 'C18.5')
+M('C18', 'created-datetime-truncated-to-day', PK, "            warnings.warn(\"Passing TZ-naive datetime object to PubKeyV4 packet\")\n        self._created = val", "            warnings.warn(\"Passing TZ-naive datetime object to PubKeyV4 packet\")\n        self._created = val.replace(hour=0, minute=0, second=0)", 'C18.5')
+M('C18', 'fp-length-from-header-for-public', PK, "        plen = self.keymaterial.publen()\n        bcde_len = self.int_to_bytes(6 + plen, 2)", "        plen = self.keymaterial.publen()\n        bcde_len = self.int_to_bytes(self.header.length if self.public else 6 + plen, 2)", 'C18.1')
+# ---- wave 6
+M('C14', 'llen-widening-strict', TY, "            while 0 < llen < 4 and self.length >= (1 << (8 * llen)):", "            while 0 < llen < 4 and self.length > (1 << (8 * llen)):", 'C14.8')
+M('C14', 'armor-crc-width-dropped', TY, "PGPObject.int_to_bytes(self.crc24(self.__bytes__()), 3)", "PGPObject.int_to_bytes(self.crc24(self.__bytes__()))", 'C14.8')
+M('C14', 'userid-fallback-forgotten', PK, "            self.uid = uid_bytes.decode('charmap')\n            self._encoding_fallback = True\n", "            self.uid = uid_bytes.decode('charmap')\n", 'C14.8')
+M('C14', 'userid-fallback-latin-replace', PK, "            self.uid = uid_bytes.decode('charmap')\n            self._encoding_fallback = True\n", "            self.uid = uid_bytes.decode('utf-8', 'replace')\n", 'C14.8')
+T('C14', 'twin-userid-fallback-flag-first', PK, "            self.uid = uid_bytes.decode('charmap')\n            self._encoding_fallback = True\n", "            self._encoding_fallback = True\n            self.uid = uid_bytes.decode('charmap')\n")
+M('C20', 'new-contents-by-reference', PGP, "            lit._contents = bytearray(msg.text_to_bytes(message))\n", "            lit._contents = msg.text_to_bytes(message)\n", 'C20.6')
+T('C20', 'twin-new-contents-temporary-copy', PGP, "            lit._contents = bytearray(msg.text_to_bytes(message))\n", "            octets = msg.text_to_bytes(message)\n            lit._contents = bytearray(octets)\n")
+M('C20', 'new-contents-charset-hint', PGP, "            lit._contents = bytearray(msg.text_to_bytes(message))\n", "            lit._contents = bytearray(msg.text_to_bytes(message).decode('utf-8').encode(charset or 'utf-8')) if charset else bytearray(msg.text_to_bytes(message))\n", 'C20.6')
 # wave 6: literal text codec on the signed-data path, rejection on re-encoded sizes, verdict without own hash
 M('C02', 'literal-contents-utf8-sig', PK, "            return self._contents.decode('utf-8')", "            return self._contents.decode('utf-8-sig')", 'C02.8')
 M('C02', 'literal-contents-utf8-ignore-errors-latin', PK, "            return self._contents.decode('utf-8')", "            return self._contents.decode('utf-16')", 'C02.8')
